@@ -102,17 +102,29 @@ type job struct {
 	solo bool
 }
 
+// tailBuf keeps the beginning (a Go panic message and the panicking goroutine come first) and the end of a worker's stderr.
 type tailBuf struct {
-	mu  sync.Mutex
-	buf []byte
+	mu   sync.Mutex
+	head []byte
+	buf  []byte
+	cut  bool
 }
 
 func (t *tailBuf) Write(p []byte) (int, error) {
 	t.mu.Lock()
 	defer t.mu.Unlock()
-	t.buf = append(t.buf, p...)
+	q := p
+	if room := 8192 - len(t.head); room > 0 {
+		if room > len(q) {
+			room = len(q)
+		}
+		t.head = append(t.head, q[:room]...)
+		q = q[room:]
+	}
+	t.buf = append(t.buf, q...)
 	if len(t.buf) > 16384 {
 		t.buf = t.buf[len(t.buf)-16384:]
+		t.cut = true
 	}
 	return len(p), nil
 }
@@ -120,7 +132,10 @@ func (t *tailBuf) Write(p []byte) (int, error) {
 func (t *tailBuf) String() string {
 	t.mu.Lock()
 	defer t.mu.Unlock()
-	return string(t.buf)
+	if t.cut {
+		return string(t.head) + "\n[...]\n" + string(t.buf)
+	}
+	return string(t.head) + string(t.buf)
 }
 
 func supervise(fam string, nworkers, conc int, tmo time.Duration) {
